@@ -8,7 +8,7 @@
               ERR | FUEL
    c02_model tree [pinned|spec]
        line:  a source tree, e.g. (B + (V a) (P (B * (N 2) (V b))))
-       out :  <tokens of pr tbl 0 e> @@@ wf=<0/1> safe=<0/1> nogtlp=<0/1> rt=<0/1> @@@ <dump of strip e>
+       out :  <tokens of pr tbl 0 e> @@@ wf=<0/1> safe=<0/1> synsafe=<0/1> rt=<0/1> @@@ <dump of strip e>
               rt=1 iff parse tbl (pr tbl 0 e ++ ctx) = Ok (strip e, ctx)
    c02_model full [pinned|spec]      line: tree       out: the tree of (full e), same syntax
    c02_model eval                    line: v0,v1,... | tree     out: value or NONE
@@ -28,14 +28,30 @@ let int_of_n = function N0 -> 0 | Npos p -> int_of_pos p
 let z_of_int n = if n = 0 then Z0 else if n > 0 then Zpos (pos_of_int n) else Zneg (pos_of_int (-n))
 let int_of_z = function Z0 -> 0 | Zpos p -> int_of_pos p | Zneg p -> - (int_of_pos p)
 
-(* identifiers <-> nat *)
+(* identifiers <-> nat.  The number carries the two facts the parser looks at (Model.v id_upper / id_type):
+   x = 4 * k + 2 * (names a declared type) + (upper-case initial); 0 is `sizeof`.
+   The declared type names are those of the prelude every harness program starts with (props/c02.py PRELUDE);
+   typedefs resolve to their base type in the cast node. *)
+let type_names = [ ("Point", "Point"); ("node", "node"); ("Len", "int"); ("len_t", "int"); ("Color", "Color");
+                   ("mode", "mode"); ("Shape", "Shape") ]
 let names : (string, int) Hashtbl.t = Hashtbl.create 16
 let rev_names : (int, string) Hashtbl.t = Hashtbl.create 16
+let next_k = ref 1
 let intern s =
   match Hashtbl.find_opt names s with
   | Some i -> nat_of_int i
-  | None -> let i = Hashtbl.length names in Hashtbl.add names s i; Hashtbl.add rev_names i s; nat_of_int i
+  | None ->
+    let i =
+      if s = "sizeof" then 0
+      else begin
+        let k = !next_k in incr next_k;
+        4 * k + (if List.mem_assoc s type_names then 2 else 0) + (if s.[0] >= 'A' && s.[0] <= 'Z' then 1 else 0)
+      end in
+    Hashtbl.add names s i; Hashtbl.add rev_names i s; nat_of_int i
 let name_of n = match Hashtbl.find_opt rev_names (int_of_nat n) with Some s -> s | None -> "v" ^ string_of_int (int_of_nat n)
+
+let keywords = [ "int"; "long"; "short"; "tiny"; "float"; "double"; "bool"; "string"; "char"; "void" ]
+let kw_index s = let rec go i = function [] -> None | x :: r -> if x = s then Some i else go (i + 1) r in go 0 keywords
 
 let binops = [ ("||", Or); ("&&", And); ("|", BOr); ("^", BXor); ("&", BAnd); ("==", EqO); ("!=", NeO);
                ("<", LtO); ("<=", LeO); (">", GtO); (">=", GeO); ("<<", Shl); (">>", Shr); ("+", Add);
@@ -57,7 +73,8 @@ let tok_of_string s =
        then TAsg (Some (List.assoc (String.sub s 0 (l - 1)) binops))
        else if l > 0 && s.[0] >= '0' && s.[0] <= '9' then
          (match int_of_string_opt s with Some n -> TNum (n_of_int n) | None -> TOther)
-       else if l > 0 && ((s.[0] >= 'a' && s.[0] <= 'z') || s.[0] = '_') then TId (intern s)
+       else if l > 0 && ((s.[0] >= 'a' && s.[0] <= 'z') || (s.[0] >= 'A' && s.[0] <= 'Z') || s.[0] = '_') then
+         (match kw_index s with Some k -> TKw (nat_of_int k) | None -> TId (intern s))
        else TOther)
 
 let string_of_tok = function
@@ -65,7 +82,7 @@ let string_of_tok = function
   | TNot -> "!" | TTilde -> "~" | TInc -> "++" | TDec -> "--" | TLP -> "(" | TRP -> ")"
   | TLB -> "[" | TRB -> "]" | TDot -> "." | TArrow -> "->" | TQ -> "?" | TColon -> ":"
   | TComma -> "," | TAsg None -> "=" | TAsg (Some o) -> binop_text o ^ "=" | TSemi -> ";"
-  | TRBrace -> "}" | TOther -> "@other@"
+  | TRBrace -> "}" | TOther -> "@other@" | TKw k -> List.nth keywords (int_of_nat k)
 let text_of_toks ts = String.concat " " (List.map string_of_tok ts)
 
 let split_ws s = List.filter (fun x -> x <> "") (String.split_on_char ' ' s)
@@ -88,7 +105,9 @@ let unop_text = function Not -> "!" | Neg -> "-" | BNot -> "~" | Addr -> "ADDRES
 let type_text ty =
   let base = Buffer.create 8 and stars = Buffer.create 4 and dims = Buffer.create 8 and amp = ref false in
   List.iter (function
-      | TId x -> if Buffer.length base = 0 && Buffer.length dims = 0 then Buffer.add_string base (name_of x)
+      | TKw k -> Buffer.add_string base (List.nth keywords (int_of_nat k))
+      | TId x -> if Buffer.length base = 0 && Buffer.length dims = 0 then
+                   Buffer.add_string base (match List.assoc_opt (name_of x) type_names with Some b -> b | None -> name_of x)
                  else Buffer.add_string dims (name_of x)
       | TOp Mul -> Buffer.add_char stars '*'
       | TOp BAnd -> amp := true
@@ -101,8 +120,8 @@ let type_text ty =
 
 (* the `name` field the C++ node carries (used by the array-element compound-assignment copy) *)
 let node_name = function
-  | Var x -> Some (name_of x) | Call (f, _) -> Some (name_of f) | Generic (_, Call (f, _)) -> Some (name_of f)
-  | Mem (_, m) | Arrow (_, m) -> Some (name_of m)
+  | Var x -> Some (name_of x) | Call (f, _) when int_of_nat f <> 0 -> Some (name_of f) | Generic (_, Call (f, _)) -> Some (name_of f)
+  | Mem (_, m) | Arrow (_, m) | MCall (_, _, m, _) -> Some (name_of m)
   | Asg (_, Var x, _) -> Some (name_of x)
   | _ -> None
 
@@ -120,7 +139,10 @@ let rec dump ?(clone = false) (e : expr) : string =
   | Idx (a, i) -> Printf.sprintf "(ARRAY_REF L%s X%s)" (d a) (d i)
   | Mem (a, m) -> Printf.sprintf "(MEMBER_ACCESS name=%s L%s)" (name_of m) (d a)
   | Arrow (a, m) -> Printf.sprintf "(ARROW_ACCESS name=%s L%s)" (name_of m) (d a)
+  | Call (f, _) when int_of_nat f = 0 -> "(SIZEOF_EXPR)"      (* sizeof_expr is not a field the dump hook prints *)
+  | SizeofT -> "(SIZEOF_EXPR)"
   | Call (f, args) -> Printf.sprintf "(FUNC_CALL name=%s%s)" (name_of f) (dump_args ~clone args)
+  | MCall (_, a, m, args) -> Printf.sprintf "(FUNC_CALL name=%s L%s%s)" (name_of m) (d a) (dump_args ~clone args)
   | Generic (n, Call (f, args)) ->
     let n = int_of_nat n in
     Printf.sprintf "(FUNC_CALL name=%s%s%s)" (name_of f)
@@ -184,6 +206,15 @@ let rec expr_of_sx = function
   | Lst [A "M"; a; A m] -> Mem (expr_of_sx a, intern m)
   | Lst [A "A"; a; A m] -> Arrow (expr_of_sx a, intern m)
   | Lst (A "C" :: A f :: args) -> Call (intern f, List.map expr_of_sx args)
+  | Lst (A "MC" :: A k :: a :: A m :: args) -> MCall (k = "->", expr_of_sx a, intern m, List.map expr_of_sx args)
+  | Lst [A "K"; A ty; a] ->
+    (* cast to a keyword type with '*'s, e.g. (K int** (V a)) *)
+    let n = String.length ty in
+    let rec base i = if i < n && ty.[i] <> '*' then base (i + 1) else i in
+    let b = base 0 in
+    (match kw_index (String.sub ty 0 b) with
+     | Some k -> Cast (TKw (nat_of_int k) :: List.init (n - b) (fun _ -> TOp Mul), expr_of_sx a)
+     | None -> failwith "cast type")
   | Lst [A "T"; c; a; b] -> Tern (expr_of_sx c, expr_of_sx a, expr_of_sx b)
   | Lst [A "S"; A o; l; r] ->
     let op = if o = "=" then None else Some (List.assoc (String.sub o 0 (String.length o - 1)) binops) in
@@ -203,10 +234,13 @@ let rec sx_of_expr e =
   | Mem (a, m) -> p "(M %s %s)" (sx_of_expr a) (name_of m)
   | Arrow (a, m) -> p "(A %s %s)" (sx_of_expr a) (name_of m)
   | Call (f, args) -> p "(C %s%s)" (name_of f) (String.concat "" (List.map (fun a -> " " ^ sx_of_expr a) args))
+  | MCall (ar, a, m, args) -> p "(MC %s %s %s%s)" (if ar then "->" else ".") (sx_of_expr a) (name_of m)
+                                (String.concat "" (List.map (fun a -> " " ^ sx_of_expr a) args))
+  | SizeofT -> "(SZT)"
   | Tern (c, a, b) -> p "(T %s %s %s)" (sx_of_expr c) (sx_of_expr a) (sx_of_expr b)
   | Asg (o, l, r) -> p "(S %s %s %s)" (match o with None -> "=" | Some o -> binop_text o ^ "=") (sx_of_expr l) (sx_of_expr r)
   | EProp a -> p "(E %s)" (sx_of_expr a)
-  | Cast (_, a) -> p "(CAST %s)" (sx_of_expr a)
+  | Cast (ty, a) -> p "(K %s %s)" (type_text ty) (sx_of_expr a)
   | Generic (_, a) -> p "(G %s)" (sx_of_expr a)
 
 let b2s b = if b then "1" else "0"
@@ -225,7 +259,7 @@ let () =
   let tbl = if Array.length Sys.argv > 2 && Sys.argv.(2) = "spec" then spec_table
             else if Array.length Sys.argv > 2 && Sys.argv.(2) = "old" then old_table else pinned_table in
   (* a fixed, small set of names first so that numbering is stable *)
-  List.iter (fun s -> ignore (intern s)) [ "a"; "b"; "c"; "d"; "e"; "f"; "g"; "h"; "i"; "j"; "m"; "n"; "p"; "q"; "v"; "w"; "x"; "y"; "z" ];
+  List.iter (fun s -> ignore (intern s)) [ "sizeof"; "a"; "b"; "c"; "d"; "e"; "f"; "g"; "h"; "i"; "j"; "m"; "n"; "p"; "q"; "v"; "w"; "x"; "y"; "z" ];
   if sub = "levels" then begin
     List.iter (fun (s, o) -> Printf.printf "%s %d\n" s (int_of_nat (lvl tbl o))) binops; exit 0
   end;
@@ -247,23 +281,27 @@ let () =
            let ctx = [TRP; TSemi] in
            let ts = pr tbl O e in
            let rt = (match parse_iter tbl (ts @ ctx) with Ok (e', rest) -> e' = strip e && rest = ctx | _ -> false) in
-           Printf.printf "%s @@@ wf=%s safe=%s nogtlp=%s rt=%s @@@ %s\n" (text_of_toks ts) (b2s (wf e))
-             (b2s (safeb (ts @ ctx))) (b2s (no_gt_lp (ts @ ctx))) (b2s rt) (dump (strip e))
+           Printf.printf "%s @@@ wf=%s safe=%s synsafe=%s rt=%s @@@ %s\n" (text_of_toks ts) (b2s (wf e))
+             (b2s (safeb (ts @ ctx))) (b2s (syn_safe (ts @ ctx))) (b2s rt) (dump (strip e))
          | "full" -> print_endline (sx_of_expr (full (expr_of_sx (read_sx line))))
          | "eval" ->
            (match String.index_opt line '|' with
             | None -> print_endline "NONE"
             | Some i ->
-              let vs = List.map (fun s -> int_of_string (String.trim s))
+              (* bindings name=value, ... ; an unbound identifier is 0 *)
+              let binds = List.map (fun s ->
+                  match String.split_on_char '=' (String.trim s) with
+                  | [n; v] -> (int_of_nat (intern (String.trim n)), int_of_string (String.trim v))
+                  | _ -> failwith "binding")
                   (List.filter (fun s -> String.trim s <> "") (String.split_on_char ',' (String.sub line 0 i))) in
               let e = expr_of_sx (read_sx (String.sub line (i + 1) (String.length line - i - 1))) in
-              let arr = Array.of_list vs in
-              let env x = let k = int_of_nat x in if k < Array.length arr then z_of_int arr.(k) else Z0 in
+              let env x = match List.assoc_opt (int_of_nat x) binds with Some v -> z_of_int v | None -> Z0 in
               (* the two pure functions every evaluation program declares:
                  int f(int x, int y) { return x * 3 + y; }   int g(int x) { return 7 - x; } *)
               let fn f vs = match name_of f, List.map int_of_z vs with
                 | "f", [x; y] -> Some (z_of_int (x * 3 + y))
                 | "g", [x] -> Some (z_of_int (7 - x))
+                | "sizeof", [_] -> Some (z_of_int 4)      (* every operand of the evaluation programs is an int *)
                 | _ -> None in
               (match eval_fn fn env e with Some z -> print_endline (string_of_int (int_of_z z)) | None -> print_endline "NONE"))
          | "safe" ->
